@@ -42,6 +42,11 @@ pub trait IteratorImpl {
 '''
 
 KIND_SPEC = '''
+/// the i-th entry of the row of section identifiers that heads the table of section offsets
+pub open spec fn index_column_id(b: RView, i: int) -> nat {
+    b.u(16 + 12 * b.u(12, 4) + 4 * i, 4)
+}
+
 /// DWARF 5 table 7.1 (DW_SECT_*) and the GNU DebugFission version 2 numbering
 pub open spec fn index_section_kind(version: u16, v: nat) -> Option<IndexSectionId> {
     if version == 2 {
@@ -98,7 +103,7 @@ use vstd::std_specs::iter::IteratorSpec;''')
          'let t0 = 16 + 12 * s; let t1 = t0 + 4 * n; let total = t1 + u * n * 4 + u * n * 4; ')
     VOK = '(b.u(0, 4) == 2 || b.u(0, 2) == 5)'
     SOK = '(s == 0 || (s <= u32::MAX && is_pow2_u32(s as u32) && s > u))'
-    KOK = '(forall|i: int| 0 <= i < n ==> index_section_kind(if b.u(0, 4) == 2 { 2u16 } else { 5u16 }, #[trigger] b.u(t0 + 4 * i, 4)) is Some)'
+    KOK = '(forall|i: int| 0 <= i < n ==> index_section_kind(if b.u(0, 4) == 2 { 2u16 } else { 5u16 }, #[trigger] index_column_id(b, i)) is Some)'
     imp.splice('parse', ret='res', ensures=[
         '[C17:index-empty] input.rv().len == 0 ==> (res matches Ok(ix) && ix.v_version() == 0 && ix.v_section_count() == 0 '
         '&& ix.v_unit_count() == 0 && ix.v_slot_count() == 0 && ix.wf())',
@@ -106,7 +111,7 @@ use vstd::std_specs::iter::IteratorSpec;''')
         f'[C17:index-version] res matches Ok(ix) ==> ({{ {L} b.len > 0 ==> (b.u(0, 4) == 2 ==> ix.v_version() == 2) && (b.u(0, 4) != 2 ==> ix.v_version() == 5 && b.u(0, 2) == 5) }})',
         f'[C17:index-counts] res matches Ok(ix) ==> ({{ {L} b.len > 0 ==> ix.v_section_count() == n && ix.v_unit_count() == u && ix.v_slot_count() == s }})',
         f'[C17:index-hash-layout][C10:view] res matches Ok(ix) ==> ({{ {L} b.len > 0 ==> window(b, ix.v_hash_ids(), 16, 8 * s) && window(b, ix.v_hash_rows(), 16 + 8 * s, 4 * s) }})',
-        f'[C17:index-section-kinds] res matches Ok(ix) ==> ({{ {L} b.len > 0 ==> ix.v_kinds().len() == n && forall|i: int| 0 <= i < n ==> index_section_kind(ix.v_version(), #[trigger] b.u(t0 + 4 * i, 4)) == Some(ix.v_kinds()[i]) }})',
+        f'[C17:index-section-kinds] res matches Ok(ix) ==> ({{ {L} b.len > 0 ==> ix.v_kinds().len() == n && forall|i: int| 0 <= i < n ==> index_section_kind(ix.v_version(), #[trigger] index_column_id(b, i)) == Some(ix.v_kinds()[i]) }})',
         f'[C17:index-contrib-layout][C10:view] res matches Ok(ix) ==> ({{ {L} b.len > 0 ==> window(b, ix.v_offsets(), t1 as nat, u * n * 4) && window(b, ix.v_sizes(), t1 + u * n * 4, u * n * 4) }})',
         f'[C17:index-reject-version] ({{ {L} b.len > 0 && !{VOK} ==> res is Err }})',
         f'[C17:index-reject-slot-count][C01:slot-count-validated] ({{ {L} b.len > 0 && !{SOK} ==> res is Err }})',
@@ -116,17 +121,19 @@ use vstd::std_specs::iter::IteratorSpec;''')
         f'[C17:index-accept] ({{ {L} b.len >= total && {VOK} && {SOK} && n <= 8 && {KOK} ==> res is Ok }})',
     ], loops={0: 'invariant sections@.len() == 8, section_count <= 8, version == 2 || version == 5, '
                  'adv(b0, input.rv(), (gt0 + 4 * i) as nat), '
-                 'forall|j: int| 0 <= j < i ==> index_section_kind(version, #[trigger] b0.u(gt0 + 4 * j, 4)) == Some(sections@[j]),'},
+                 'forall|j: int| 0 <= j < i ==> index_section_kind(version, #[trigger] index_column_id(b0, j)) == Some(sections@[j]),'},
         before=[('if input.is_empty() {', 'let ghost b0 = input.rv(); let ghost gn = b0.u(4, 4); let ghost gu = b0.u(8, 4); let ghost gs = b0.u(12, 4); let ghost gt0 = 16 + 12 * gs; let ghost gt1 = gt0 + 4 * gn;'),
                 ('if slot_count != 0 && (', 'proof { lemma_pow2_mask_test(slot_count); }'),
                 ('let hash_ids = input.split(', 'assert(section_count == gn && unit_count == gu && slot_count == gs);'),
                 ('let offsets = input.split(', 'proof { assert(0 <= (unit_count as int) * (section_count as int) <= 0xffff_ffff * 8) by (nonlinear_arith) requires 0 <= unit_count <= 0xffff_ffff, 0 <= section_count <= 8; }')],
-        after=[('let section = input.read_u32()?;', 'assert(section as nat == b0.u(gt0 + 4 * i, 4));')],
+        after=[('let section = input.read_u32()?;', 'assert(section as nat == index_column_id(b0, i as int));')],
         # the postconditions speak about the by-value parameter `input`, which the loop invariant cannot name
         # (inside the body `input` is the mutable local): the loop inherits the facts established before it
         attrs='#[verifier::loop_isolation(false)]')
     # ---- find
     N = 'self.v_slot_count() as int'
+    # the loop counter of `for _ in 0..n` is only nameable through Verus' ghost iterator handle (pure ghost syntax)
+    imp.insert_after('for _ in ', 'vit: ')
     imp.splice('find', ret='res', requires=['[C17:index-wf] self.wf()'], ensures=[
         '[C17:find-is-search] res matches Some(r) ==> search(self.ids(), self.rows(), id, 0) == Some(r as nat)',
         '[C17:find-is-search] res is None ==> search(self.ids(), self.rows(), id, 0) is None',
@@ -142,8 +149,6 @@ use vstd::std_specs::iter::IteratorSpec;''')
         before=[('if self.slot_count == 0 {', 'proof { lemma_search_sound(self.ids(), self.rows(), id, 0); if open_addressed(self.ids()) && id != 0 { lemma_search_is_scan(self.ids(), self.rows(), id); } }'),
                 ('let mut hash1 = id & mask;', 'proof { lemma_mask_is_mod(id, self.slot_count); lemma_mask_is_mod(id >> 32, self.slot_count); lemma_stride(id, self.slot_count); }'),
                 ('hash1 = (hash1 + hash2) & mask;', 'proof { lemma_mask_is_mod((hash1 + hash2) as u64, self.slot_count); }')])
-    # the loop counter of `for _ in 0..n` is only nameable through Verus' ghost iterator handle (pure ghost syntax)
-    imp.insert_after('for _ in ', 'vit: ')
     sk.add('read::index', imp)
     sk.add('read::index', ix.item(r'^pub struct UnitIndexSectionIterator<', label='UnitIndexSectionIterator').clean(rejrec=['R']))
     nx = ix.item(r"^impl<'index, R: Reader> Iterator for UnitIndexSectionIterator<", label='UnitIndexSectionIterator')
